@@ -145,22 +145,24 @@ var variants = []variant{
 	// ---- recorded defect classes: frames that are NOT echo replies by the RFCs but reach echoNotify ----
 	// IPv4 header with a wrong version nibble or IHL < 5 (IP4.IsValid looks at neither)
 	{"hdr4", true, func(id uint16, aux, p int) []byte {
-		switch aux % 3 {
-		case 0: // version nibble not 4, otherwise a clean reply
-			f := eth4(p, ip4Echo(peerIP4(p), lib.HostIP4, 1, lib.MkICMPEcho(0, 0, id, 1, data(aux))))
-			f[14] = byte([]int{0, 5, 6, 15}[aux/3%4])<<4 | 5
-			return f
-		case 1: // first byte 0: version 0, IHL 0 -> the IP header itself is read as the ICMP message
+		// version nibble not 4, otherwise a clean reply
+		f := eth4(p, ip4Echo(peerIP4(p), lib.HostIP4, 1, lib.MkICMPEcho(0, 0, id, 1, data(aux))))
+		f[14] = byte([]int{0, 5, 6, 15}[aux%4])<<4 | 5
+		return f
+	}},
+	// IHL below 5 (rejected by IP4.IsValid since /repo 38ef1da; completed a ping before)
+	{"ihl4", false, func(id uint16, aux, p int) []byte {
+		if aux%2 == 0 { // first byte 0: version 0, IHL 0 -> the IP header itself would be read as the ICMP message
 			ip := ip4Echo(peerIP4(p), lib.HostIP4, 1, lib.MkICMPEcho(8, 0, id^0x5555, 1, nil))
-			ip[0] = 0
-			put16(ip, 4, int(id)) // IP identification field sits where the echo id is read
+			ip[0] = byte([]int{0, 0x40}[aux/2%2])
+			put16(ip, 4, int(id)) // IP identification field sits where the echo id would be read
 			return eth4(p, ip)
-		default: // IHL 2: bytes 8.. of the header are read as the ICMP message (ttl = type, src = id)
-			ip := ip4Echo(netip.AddrFrom4([4]byte{byte(id >> 8), byte(id), 1, 1}), lib.HostIP4, 1, lib.MkICMPEcho(8, 0, id^0x3333, 1, nil))
-			ip[0] = 0x42
-			ip[8] = 0
-			return lib.MkEther(lib.HostMAC, peerMAC(p), 0x0800, ip)
 		}
+		// IHL 2: bytes 8.. of the header would be read as the ICMP message (ttl = type, src = id)
+		ip := ip4Echo(netip.AddrFrom4([4]byte{byte(id >> 8), byte(id), 1, 1}), lib.HostIP4, 1, lib.MkICMPEcho(8, 0, id^0x3333, 1, nil))
+		ip[0] = 0x42
+		ip[8] = 0
+		return lib.MkEther(lib.HostMAC, peerMAC(p), 0x0800, ip)
 	}},
 	{"hdr6", true, func(id uint16, aux, p int) []byte {
 		f := eth6(p, lib.MkIP6(peerIP6(p), lib.HostLLA, 58, 64, echo6(peerIP6(p), lib.HostLLA, 129, id, data(aux))))
@@ -177,11 +179,13 @@ var variants = []variant{
 	// IPv4 TotalLength ends before the 8-byte ICMP header is complete, the frame goes on
 	{"tl4", true, func(id uint16, aux, p int) []byte {
 		f := eth4(p, ip4Echo(peerIP4(p), lib.HostIP4, 1, lib.MkICMPEcho(0, 0, id, 1, data(aux))))
-		if aux%2 == 0 {
-			put16(f, 16, 20+aux/2%8)
-		} else {
-			put16(f, 16, aux/2%20)
-		}
+		put16(f, 16, 20+aux%8)
+		return f
+	}},
+	// TotalLength below the header length (rejected by IP4.IsValid since /repo 38ef1da)
+	{"tlx4", false, func(id uint16, aux, p int) []byte {
+		f := eth4(p, ip4Echo(peerIP4(p), lib.HostIP4, 1, lib.MkICMPEcho(0, 0, id, 1, data(aux))))
+		put16(f, 16, aux%20)
 		return f
 	}},
 }
